@@ -562,8 +562,14 @@ class Plugin:
             # all sources are requested all the way (including the final
             # Stopiteration), as required by lazy-mode processing requires
             for d in iters.keys():
-                if self._fetch_chunk(d, iters):
-                    raise RuntimeError(f"Plugin {d} terminated without fetching last {d}!")
+                buffer = self.input_buffer[d]
+                n_before, end_before = len(buffer), buffer.end
+                while self._fetch_chunk(d, iters):
+                    # Trailing chunks that bring neither rows nor time (zero duration)
+                    # leave nothing unprocessed
+                    buffer = self.input_buffer[d]
+                    if len(buffer) != n_before or buffer.end != end_before:
+                        raise RuntimeError(f"Plugin {d} terminated without fetching last {d}!")
 
             # This can happen especially in time range selections
             if hasattr(self.save_when, "values"):
